@@ -127,7 +127,7 @@ func registerResolver() {
 		},
 		Thorough: []Shard{
 			world("HarnessC04", 0, 1, 1, 11, 1, 0, 128), world("HarnessC04", 5, 1, 1, 1111, 1, 0, 128), world("HarnessC04", 0, 1, 1, 11, 9, 0, 130), world("HarnessC04", 101, 0, 0, 0, 1, 0, 128),
-			world("HarnessC04", 0, 1, 1, 11, 9, 0), world("HarnessC04", 1, 1, 1, 1111, 1, 0), world("HarnessC04", 0, 1, 1, 1121, 0, 0), world("HarnessC04", 0, 1, 1, 12, 9, 0), world("HarnessC04", 1, 1, 1, 12, 1, 0), world("HarnessC04", 101, 0, 0, 0, 1, 0), world("HarnessC04", 106, 0, 0, 0, 1, 0), world("HarnessC04", 104, 0, 0, 0, 0, 0), world("HarnessC04", 0, 1, 1, 1211, 1, 0, 2), world("HarnessC04", 0, 2, 1, 1111, 1, 1), world("HarnessC04", 0, 1, 1, 111111, 1, 0), world("HarnessC04", 3, 1, 1, 1111, 0, 0), world("HarnessC04", 0, 1, 2, 2111, 2, 0), world("HarnessC04", 3, 1, 1, 12, 9, 0), world("HarnessC04", 5, 1, 1, 211111, 0, 0), world("HarnessC04", 100, 0, 0, 0, 9, 0), world("HarnessC04", 102, 0, 0, 0, 9, 0, 2), world("HarnessC04", 101, 0, 0, 0, 9, 0, 2),
+			world("HarnessC04", 0, 1, 1, 11, 9, 0), world("HarnessC04", 1, 1, 1, 1111, 1, 0), world("HarnessC04", 0, 1, 1, 1121, 0, 0), world("HarnessC04", 0, 1, 1, 12, 9, 0), world("HarnessC04", 1, 1, 1, 12, 1, 0), world("HarnessC04", 101, 0, 0, 0, 1, 0), world("HarnessC04", 106, 0, 0, 0, 1, 0), world("HarnessC04", 104, 0, 0, 0, 0, 0), world("HarnessC04", 0, 1, 1, 1211, 1, 0, 2), world("HarnessC04", 0, 2, 1, 1111, 1, 1), world("HarnessC04", 0, 1, 1, 111111, 1, 0), world("HarnessC04", 3, 1, 1, 11, 0, 0), world("HarnessC04", 3, 1, 0, 1111, 0, 0), world("HarnessC04", 0, 1, 2, 2111, 2, 0), world("HarnessC04", 3, 1, 1, 12, 1, 0), world("HarnessC04", 5, 1, 1, 211111, 0, 0), world("HarnessC04", 100, 0, 0, 0, 9, 0), world("HarnessC04", 102, 0, 0, 0, 9, 0, 2), world("HarnessC04", 101, 0, 0, 0, 9, 0, 2),
 		},
 		Covers:   []string{"C04.call-returned", "C04.converter-failed", "C04.target-failed", "C04.success"},
 		Bounds:   []string{"chains of up to 2 (quick) / 3 (thorough) converters with symbolic labels, each declaring a final error and failing symbolically; the target fails symbolically too", "error identity is Go pointer identity of distinct error objects"},
@@ -188,7 +188,7 @@ func registerResolver() {
 			sh("HarnessC10Nil", "nilable target: *P0 supplied directly, nil-ness symbolic", 0, 0), sh("HarnessC10Nil", "nilable target: *P0 from a converter, nil-ness symbolic", 0, 1),
 			sh("HarnessC10Nil", "nilable target: []P0 supplied directly, nil-ness symbolic", 0, 2), sh("HarnessC10Nil", "nilable target: []P0 from a converter, nil-ness symbolic", 0, 3),
 			sh("HarnessC10Seq", "histories of 2 Convert calls over 4 target types (two distinct same-named local types, P0, interface)", 0, 2)},
-		Thorough: []Shard{w10(0, 1, 0, 0, 0), w10(0, 1, 11, 9, 0), w10(4, 2, 11, 1, 0), w10(0, 1, 1111, 1, 0), w10(3, 2, 11, 0, 1), w10(0, 2, 1111, 1, 0), w10(0, 1, 2111, 1, 0), w10(4, 1, 1111, 9, 0),
+		Thorough: []Shard{w10(0, 1, 0, 0, 0), w10(0, 1, 11, 9, 0), w10(4, 2, 11, 1, 0), w10(0, 1, 1111, 1, 0), w10(3, 2, 11, 0, 1), w10(0, 2, 1111, 1, 0), w10(0, 1, 2111, 1, 0), w10(4, 1, 1111, 1, 0), w10(4, 1, 11, 9, 0),
 			sh("HarnessC10Nil", "nilable target: *P0 supplied directly, nil-ness symbolic", 0, 0), sh("HarnessC10Nil", "nilable target: *P0 from a converter, nil-ness symbolic", 0, 1),
 			sh("HarnessC10Nil", "nilable target: []P0 supplied directly, nil-ness symbolic", 0, 2), sh("HarnessC10Nil", "nilable target: []P0 from a converter, nil-ness symbolic", 0, 3),
 			sh("HarnessC10Seq", "histories of 3 Convert calls over 4 target types (two distinct same-named local types, P0, interface)", 0, 3)},
